@@ -268,7 +268,15 @@ fn try_compile_cfg(prog: &Prog, reexports: bool) -> Result<processor::Program, S
 }
 
 fn run_ref(prog: &Prog, advice: &[u64]) -> (Result<(), Stop>, Vec<u64>, bool) {
-    let mut vm = Vm::new(prog, &[], advice, BTreeMap::new());
+    // MAST roots matter to `caller` only, which this family does not use: any distinct values will do
+    let roots = prog
+        .procs
+        .iter()
+        .chain(prog.lib_procs.iter())
+        .enumerate()
+        .map(|(i, p)| (p.name.clone(), [i as u64 + 1, 77, 78, 79]))
+        .collect();
+    let mut vm = Vm::new(prog, &[], advice, roots);
     let r = vm.run();
     (r, vm.stack.clone(), vm.depth_uncertain)
 }
@@ -497,6 +505,32 @@ fn extra_programs() -> Vec<Prog> {
         v.push(p(vec![op("push.0"), Node::Repeat(n, vec![op("add.1")])]));
         v.push(p(vec![op("push.1"), Node::Repeat(n, vec![op("push.3"), op("add")])]));
         v.push(p(vec![op("push.0"), Node::Repeat(n, vec![op("push.0"), Node::While(vec![op("push.0")]), op("add.1")])]));
+    }
+    // an exported procedure of the imported module reaches a `call` only through an exec of a module-local
+    // helper, under every control-flow construct: inlining must carry the helper's call targets along
+    let lp = |name: &str, body: Vec<Node>| refvm::ast::Proc { name: name.to_string(), locals: 0, body };
+    for wrap in 0..4 {
+        let inner = vec![Node::Exec("m::g1".into())];
+        let wrapped = match wrap {
+            0 => inner,
+            1 => vec![op("adv_push.1"), Node::If(inner, vec![op("push.5"), op("drop")])],
+            2 => vec![op("adv_push.1"), Node::While(vec![Node::Exec("m::g1".into()), op("adv_push.1")])],
+            _ => vec![Node::Repeat(2, inner)],
+        };
+        let mut body_g2 = vec![op("push.100")];
+        body_g2.extend(wrapped);
+        body_g2.push(op("add.1"));
+        v.push(Prog {
+            procs: vec![],
+            kernel: vec![],
+            body: vec![op("push.1"), Node::Exec("m::g2".into())],
+            uses: vec!["lib::m".to_string()],
+            lib_procs: vec![
+                lp("m::g0", vec![op("push.7"), op("add")]),
+                lp("m::g1", vec![Node::Call("m::g0".into())]),
+                lp("m::g2", body_g2),
+            ],
+        });
     }
     for n in 1..=9u32 {
         for m in 1..=9u32 {
